@@ -195,22 +195,27 @@ func AddColumnNamedIndex(t *rapid.T, s *StructSpec, label string) string {
 	return "index named like column " + src.col + " on " + f.Name
 }
 
+// indexName: the name an `index…` / `uniqueIndex…` tag part declares. Default names go
+// through the naming strategy's formatName (names beyond 64 characters are cut and hashed).
 func indexName(table string, l *Leaf, idx string) string {
-	{
-		if idx == "" {
-			return ""
-		}
-		name := ""
-		switch {
-		case idx == "index" || idx == "uniqueIndex":
-			name = "idx_" + table + "_" + SnakeName(l.Spec.Name)
-		case strings.HasPrefix(idx, "index:,composite:"):
-			name = "idx_" + table + "_" + strings.TrimPrefix(idx, "index:,composite:")
-		case strings.HasPrefix(idx, "index:"):
-			name = strings.TrimPrefix(idx, "index:")
-		}
-		return name
+	if idx == "" {
+		return ""
 	}
+	rest := ""
+	if i := strings.Index(idx, ":"); i >= 0 {
+		rest = idx[i+1:]
+	}
+	parts := strings.Split(rest, ",")
+	if parts[0] != "" {
+		return parts[0] // explicit name
+	}
+	sub := l.Spec.Name
+	for _, o := range parts[1:] {
+		if strings.HasPrefix(o, "composite:") {
+			sub = strings.TrimPrefix(o, "composite:")
+		}
+	}
+	return schema.NamingStrategy{}.IndexName(table, sub)
 }
 
 // ExpectedConstraints lists the check and unique constraint names the tags declare.
@@ -220,7 +225,7 @@ func (m *Model) ExpectedConstraints(table string) (checks, uniques []string) {
 			if l.Spec.CheckName != "" {
 				checks = append(checks, l.Spec.CheckName)
 			} else {
-				checks = append(checks, "chk_"+table+"_"+l.DBName)
+				checks = append(checks, schema.NamingStrategy{}.CheckerName(table, l.DBName))
 			}
 		}
 		if l.Spec.Unique {
